@@ -517,6 +517,13 @@ def run(ctx, out, tier):
     shared.sh_err(ctx, out, bodies, floor=40)
     shared.sh_main(ctx, out)
     shared.sh_traverse(ctx, out)
+    # with a diff AND glob arguments: a diffed file outside the globs must still be examined (shared with
+    # C02/C15), and the affects diagnostics must survive the merge with other validators' (append-only)
+    if fp is not None:
+        from rules.C02 import check_mode
+        check_mode(ctx, out, fp, rule="C01.mode")
+    shared.sh_merge(ctx, out, ctx.reachable_bodies())
+    shared.sh_units(ctx, out)
     return meta()
 
 
